@@ -6,6 +6,7 @@ import contextlib
 import io
 import itertools
 
+from .. import core
 from ..probe import call
 from ..ref import bits
 from ..ref import stream as rs
@@ -376,7 +377,7 @@ def rand_msg(rng, long_):
     else:
         df = rng.choice((0, 4, 5, 11))
         n = 56
-    x = bits.with_pi((df << (n - 29)) | rng.getrandbits(n - 29), n, rng.getrandbits(24))
+    x = bits.with_pi((df << (n - 29)) | rng.fill(n - 29), n, rng.fill(24))
     return x, n
 
 
@@ -478,7 +479,7 @@ def cases(ctx):
     nstreams = 6 if quick else 60
     for fmt, mk in (("beast", beast_specs), ("beast_rssi", beast_specs), ("raw", raw_specs), ("sky", sky_specs)):
         for sidx in range(nstreams if fmt != "beast_rssi" else max(1, nstreams // 3)):
-            srng = _r.Random((ctx.seed * 1000 + sidx) * 7 + len(fmt))   # identical stream on every shard
+            srng = core.Rng((ctx.seed * 1000 + sidx) * 7 + len(fmt))   # identical stream on every shard
             specs = mk(srng, srng.randint(3, 5) if quick else srng.randint(4, 9))
             stream = mk_stream("beast" if fmt == "beast_rssi" else fmt, specs)[0]
             n = len(stream)
@@ -509,7 +510,7 @@ def cases(ctx):
                 long_ = rng.random() < 0.8
                 if long_:
                     df = rng.choice((17, 18, 20, 21, 16, 19, 24, 17, 20))
-                    x = bits.with_pi((df << 83) | rng.getrandbits(83), 112, rng.getrandbits(24))
+                    x = bits.with_pi((df << 83) | rng.fill(83), 112, rng.fill(24))
                     m = "%028X" % x
                 else:
                     x, n = rand_msg(rng, False)
